@@ -86,14 +86,15 @@ package db
 //@   ghostret U0 (Array String Bool) = entry(1, keys(updatedAliases))
 //@   let PLAN = plan(S, strat, T0, N0, 0, CH0, U0)
 //@   ensures @C11 vlen(CH0) == 0 && N0 == len(typed(dbRoots(S), "[]string")) && (forall a string :: !U0[a])
-//@   ensures @C11,C01 err == nil ==> pOk(PLAN) && seq(res) == pCh(PLAN)
+// (C10: a second run finds nothing to do only if the first regenerated every entity below a regenerated issuer, whatever the depth)
+//@   ensures @C11,C01,C10 err == nil ==> pOk(PLAN) && seq(res) == pCh(PLAN)
 //@   ensures @C11,C09 err != nil ==> !pOk(PLAN)
 //@   ensures @C10 err == nil ==> (forall k in [0, len(res)) :: dbCfg(S, res[k].Alias) != 0)
 //@   loop 1
 //@     invariant 0 <= i && i <= len(todo)
 //@     invariant updatedAliases != nil
 //@     invariant @C10 forall k in [0, len(changes)) :: dbCfg(S, changes[k].Alias) != 0
-//@     invariant @C11,C01,C09 plan(S, strat, arr(todo), len(todo), i, seq(changes), keys(updatedAliases)) == plan(S, strat, entry(arr(todo)), entry(len(todo)), 0, entry(seq(changes)), entry(keys(updatedAliases)))
+//@     invariant @C11,C01,C09,C10 plan(S, strat, arr(todo), len(todo), i, seq(changes), keys(updatedAliases)) == plan(S, strat, entry(arr(todo)), entry(len(todo)), 0, entry(seq(changes)), entry(keys(updatedAliases)))
 
 // GenerateArtifacts: the entity's stored key or request is reused; the issuer context handed to signing is the
 // issuer's current artifact (private key, subject-public-key bits, and its certificate's SUBJECT as issuer DN), or
